@@ -182,7 +182,7 @@ func c18ScriptExec(maxN int, preemptive bool, allowMutate bool) explore.Exec {
 }
 
 // inner actions performed inside a visitor callback
-var c18Inner = []string{"Get", "Min", "Totals", "NestedVisit", "Snapshot", "Iterator", "Len", "Set", "Delete", "Flush", "Evict", "SetNew"}
+var c18Inner = []string{"Get", "Min", "Totals", "NestedVisit", "Snapshot", "Iterator", "Len", "Set", "Delete", "Flush", "Evict", "SetNew", "SetColl(y)", "SetColl+RemoveColl(y)", "Stats"}
 
 func c18Reentrant(maxN int) explore.Exec {
 	apis := []string{"Ascend", "Descend", "AscendEx", "DescendEx", "IterAscend", "IterDescend", "BlockEx", "Random"}
@@ -232,6 +232,13 @@ func c18Reentrant(maxN int) explore.Exec {
 					w.Flush()
 				case "Evict":
 					w.Evict("x")
+				case "SetColl(y)":
+					w.SetCollection("y", "nil")
+				case "SetColl+RemoveColl(y)":
+					w.SetCollection("y", "nil")
+					w.RemoveCollection("y")
+				case "Stats":
+					w.Stats()
 				}
 				harness.BeginOp("outer " + apis[api])
 			}
@@ -421,7 +428,7 @@ func c18Profiles(tier string) []Profile {
 		{Name: "scripts", Exec: c18ScriptExec(nS, true, false), Budget: map[int]int{explore.ClassSched: bound}, ShardLevel: 3, FreeRun: true,
 			Rule: fmt.Sprintf("collection sizes 0..%d x {cached, flushed+re-opened} x direction x withValue x every consumer word over {Next, Close} (ending in Close or in a Next that returned false, plus up to two further calls after the end; then AllocStats while the producer winds down) x every interleaving of consumer and producer goroutine with at most %d preemptions (channels are modelled inside the scheduler: a blocked goroutine is visibly not enabled); afterwards the consumer mutates, runs a second iterator and reads everything. Oracles: delivered sequence = model range; Next after Close/exhaustion is false; no deadlock (no enabled thread while the consumer is unfinished); no leak (no library goroutine alive at quiescence); the pinned version is released (reference count of the current version back to 1, not chained)", nS, bound)},
 		{Name: "reentrant", Exec: c18Reentrant(nR), ShardLevel: 2,
-			Rule: fmt.Sprintf("collection sizes 1..%d x {cached, flushed+re-opened} x outer API in {Ascend, Descend, AscendEx, DescendEx, IterateAscend, IterateDescend, AscendBlockEx, Random} x every callback position x inner call in {Get, Min, GetTotals, nested visit, Snapshot+read+Close, iterator with early close, Len, Set (overwrite), Set (new key), Delete, Flush, EvictSomeItems} on the same store; re-acquiring a held lock would show as 'no enabled thread'. Oracles: no deadlock/hang/panic, inner results = model, the outer visit still delivers exactly the version pinned at its start, final contents = model", nR)},
+			Rule: fmt.Sprintf("collection sizes 1..%d x {cached, flushed+re-opened} x outer API in {Ascend, Descend, AscendEx, DescendEx, IterateAscend, IterateDescend, AscendBlockEx, Random} x every callback position x inner call in {Get, Min, GetTotals, nested visit, Snapshot+read+Close, iterator with early close, Len, Set (overwrite), Set (new key), Delete, Flush, EvictSomeItems, SetCollection of another name, SetCollection+RemoveCollection of another name, Stats/AllocStats/MarshalJSON} on the same store; re-acquiring a held lock would show as 'no enabled thread'. Oracles: no deadlock/hang/panic, inner results = model, the outer visit still delivers exactly the version pinned at its start, final contents = model", nR)},
 	}
 }
 
